@@ -94,6 +94,11 @@ func (g *Gen) fill(v reflect.Value, depth int, name string) {
 		v.Set(reflect.ValueOf(sk))
 		return
 	}
+	if t.Name() == "ExportType" && v.Kind() == reflect.Int { // the v1compat twin of jwt.ExportType
+		x := []int64{0, 1, 2, 1, 2, 1, 2}
+		v.SetInt(x[g.r.Intn(len(x))])
+		return
+	}
 	switch v.Kind() {
 	case reflect.Bool:
 		v.SetBool(g.r.Bool())
